@@ -850,6 +850,9 @@ OPS = [
     # (D89: partitions were passed through with their own names, visible after reset_index / to_frame)
     _op("concat_rows_idxnames_reset", lambda t: _concat([t["L"].rename_axis("i"), t["R"].rename_axis("j")]).reset_index(), "concat",
         binary="right", noindex=True),
+    # … also when the first input's declared index is a named RangeIndex stand-in (after set_index; D99)
+    _op("concat_rows_setindex_names_reset", lambda t: _concat([t["L"].set_index("b"), t["R"].rename_axis("id")]).reset_index(), "concat",
+        binary="right", noindex=True, unordered=True),
     _op("concat_series_names_to_frame", lambda t: _concat([t["L"].a, t["L"].b]).to_frame(), "concat"),
     _op("concat_rows_inner", lambda t: _concat([t["L"], t["R"]], join="inner"), "concat", binary="right"),
     _op("concat_rows_same", lambda t: _concat([t["L"], t["R"]]), "concat", binary="same"),
